@@ -61,11 +61,11 @@ def gen_cases(unit, ctx):
         for o in (st[b], st[b] + 6, st[b + 1] - 12, st[b + 1] - 6):
             for d in (6, 36):
                 if o + d <= st[-1]:      # whole bars only: nothing overhangs the last planned bar
-                    al.append((o, d, p + b % 2, 0, 40))
+                    al.append((o, d, p + b % 2, 0, 10 if (o // 6) % 2 else 30))   # bins 12 and 36 = the two note values
     sets = [[]] + [[a] for a in al] + [list(c) for c in itertools.combinations(al[::2], 2) if lib.well_formed(c)]
     if len(plan) > 4 or (ctx["tier"] == "quick" and len(plan) >= 3):
         sets = sets[:1] + sets[1::3]
-    sides = [None, [], [(6, 12, p - 12, 0, 99)], [(st[-1] - 12, 12, p - 12, 0, 99)]]
+    sides = [None, [], [(6, 12, p - 12, 0, 5)], [(st[-1] - 12, 12, p - 12, 0, 33)]]
     for ns in sets[unit[1]::4]:
         for side in sides:
             if not ns and not side:
@@ -80,7 +80,7 @@ _TOKS = {}
 def tok(nt, fl):
     k = (nt, tuple(fl))
     if k not in _TOKS:
-        _TOKS[k] = Tok(num_tracks=nt, velocity_bins=2, flag_running_values=fl[0], flag_fuse_track=fl[1],
+        _TOKS[k] = Tok(num_tracks=nt, velocity_bins=16, flag_running_values=fl[0], flag_fuse_track=fl[1],
                        flag_fuse_value=fl[2], flag_fuse_velocity=fl[3])
     return _TOKS[k]
 
